@@ -274,7 +274,9 @@ hook — the reservation manager's final state and each claim's `reservedOfferin
        its own kept the preference (first term);
 (S3b)–(S3d) are evaluated on "plain" scenarios only (no daemonsets, limits, taints, inter-pod constraints, host ports,
 minValues; (S3b), (S3c) for pods with nothing to relax), where "the pod alone fits a fresh claim of the
-pool" can be decided from labels alone. -/
+pool" can be decided from labels alone.  Pods may mount PersistentVolumeClaims: reserved capacity is compatible with such a
+pod only where EVERY one of its volumes is reachable (zone of the bound PersistentVolume / allowedTopologies of the
+StorageClass); (S3b)–(S3d) judge the pods whose volumes have at most one topology term each. -/
 
 open Karp.Req Karp.Scn in
 structure ClaimRes where
@@ -344,13 +346,32 @@ def claimImplies (R : Reqs) (e : KExpr) : Bool :=
   | .notIn => e.vals.all (fun v => !r.has v)
   | _ => true
 
+/-- every volume the pod mounts is reachable from a node with labels `ls` (Kubernetes volume topology: the node affinity of
+    a bound PersistentVolume, the allowedTopologies of the StorageClass of an unbound claim); a pod whose volumes cannot be
+    resolved runs nowhere -/
+def volumesReach (s : Scenario) (p : Pod) (ls : Labels) : Bool :=
+  (Karp.Spec.Admissible.podVolumesOK s p (fun t => t.all (Karp.Spec.Admissible.exprOK ls)) "").isNone
+
+/-- the pod's volumes leave no choice between topology alternatives: every volume resolves and has at most one topology
+    term (the deferral rules (S3b)-(S3d) are evaluated for these pods only; a volume with several OR-ed terms makes
+    "compatible reserved capacity" depend on which alternative is looked at) -/
+def volPlain (s : Scenario) (p : Pod) : Bool :=
+  p.volumes.all (fun v => match Karp.Spec.Admissible.volumeTopology s p v with
+    | .ok terms => decide (terms.length ≤ 1)
+    | .error _ => false)
+
+/-- every volume of the pod resolves to a topology (possibly several OR-ed terms) -/
+def volResolved (s : Scenario) (p : Pod) : Bool :=
+  p.volumes.all (fun v => match Karp.Spec.Admissible.volumeTopology s p v with | .ok _ => true | .error _ => false)
+
 /-- the reserved offerings pod `p` could use on a fresh claim of pool `q`: (instance type, offering) -/
 def reservedOptions (s : Scenario) (ridKey : String) (q : Pool) (p : Pod) : List (IT × Offering) :=
   s.its.flatMap (fun it => (it.offerings.filter (fun o =>
     o.available && o.ct == reservedCT &&
     (let ls := launchLabels ridKey q it o
      q.reqs.all (fun e => Karp.Spec.K8s.k8sMatch e.op e.vals (ls.lookup e.key)) &&
-     Karp.Spec.Admissible.nodeSelectorOK ls p.nodeSelector && Karp.Spec.Admissible.requiredOK ls p.required) &&
+     Karp.Spec.Admissible.nodeSelectorOK ls p.nodeSelector && Karp.Spec.Admissible.requiredOK ls p.required &&
+     volumesReach s p ls) &&
     decide (p.cpu ≤ it.allocCPU) && decide (p.mem ≤ it.mem) && decide (1 ≤ it.pods))).map (fun o => (it, o)))
 
 def passOK (s : Scenario) (ridKey : String) (out : Outcome) (res : List ClaimRes) (capacity : List (Id × Int))
@@ -396,8 +417,8 @@ def passOK (s : Scenario) (ridKey : String) (out : Outcome) (res : List ClaimRes
     | [pn], some P =>
       match s.pod? pn with
       | none => none
-      | some p => if !plainPod p then none else (s.pools.find? (fun Q => decide (Q.weight > P.weight) && !(reservedOptions s ridKey Q p).isEmpty)).map (fun Q =>
-          s!"[fallthrough] pod {pn} opened a NodeClaim in {P.name} (weight {P.weight}) although NodePool {Q.name} (weight {Q.weight}) has compatible reserved capacity for it: it must be placed there or deferred")
+      | some p => if !plainPod p || !volResolved s p then none else (s.pools.find? (fun Q => decide (Q.weight > P.weight) && !(reservedOptions s ridKey Q p).isEmpty)).map (fun Q =>
+          s!"[fallthrough{if volPlain s p then "" else "-volume-alternatives"}] pod {pn} opened a NodeClaim in {P.name} (weight {P.weight}) although NodePool {Q.name} (weight {Q.weight}) has compatible reserved capacity for it: it must be placed there or deferred")
     | _, _ => none)
   if fall.isSome then fall else
   -- (S3d) a reserved-offering error is not relaxed away: a pod whose preference is compatible with reserved capacity of
@@ -408,7 +429,7 @@ def passOK (s : Scenario) (ridKey : String) (out : Outcome) (res : List ClaimRes
       match s.pod? pn with
       | none => none
       | some p =>
-        match prefPod p with
+        match (if volPlain s p then prefPod p else none) with
         | none => none
         | some pp =>
           if s.pools.all (fun Q => (reservedOptions s ridKey Q pp).isEmpty) then none
@@ -423,7 +444,7 @@ def passOK (s : Scenario) (ridKey : String) (out : Outcome) (res : List ClaimRes
     match s.pod? pn with
     | none => none
     | some p =>
-      if !plainPod p then none else
+      if !plainPod p || !volPlain s p then none else
       let opts := s.pools.map (fun Q => reservedOptions s ridKey Q p)
       if opts.all (·.isEmpty) then some s!"[deferred] pod {pn} was deferred for reserved capacity, but no NodePool has a compatible available reserved offering for it"
       else if !opts.any (fun l => !l.isEmpty && l.all (fun (_, o) => (capacity.lookup o.resID).getD 0 == 0)) then
